@@ -31,6 +31,16 @@ CHECKS = {
             'parent references hold.',
             'Provider side only; one MDIB file; depth/alphabet bounds as in the evidence. Version bookkeeping of the oracle is '
             'independent of handle_version_lookup.', '3/C02'),
+    'C11': ('H', 'explicit-state BFS with canonical-state dedup over table operation histories on the real MultiKeyLookup tables, plus MDIB history exploration; invariant = indices equal an independent regrouping of table.objects',
+            'Breadth-first search over add (3 variants) / remove (3 variants) / attribute write + update_object / clear / bulk add / '
+            'update_objects / duplicate-key add on the real DescriptorsLookup, StatesLookup, MultiStatesLookup, a generic 3-index '
+            'table and the subscription-table declaration, 2-3 stub objects with colliding attribute domains, depth 5-6 (thorough 5-9), '
+            'states merged on (attribute values, membership); after every transition every index dict, the back-reference map and '
+            'get_one are compared with a regrouping of table.objects computed by the harness, and a rejected insert must leave the '
+            'table equal to the reference model. MDIB level: all 2-event histories over 27 events that touch indexed attributes on '
+            'provider + consumer + subscription tables.',
+            'Attribute writes are always followed by update_object; updates that would create a duplicate unique key are outside the '
+            'alphabet; the key functions of the index declarations are trusted, their maintenance is what is checked.', '3/C11'),
     'C15': ('I', 'exhaustive enumeration of all outcomes of both random draws (choice-point DFS on the real scheduling code)',
             'All 501 x 200 outcomes of the two random draws for the unicast and the multicast parameter set are executed '
             'on the real NetworkingThread.add_outbound_message/_repeated_enqueue_msg with clock and RNG owned by the '
